@@ -259,6 +259,9 @@ func (t *Transport) Unstall() {
 	t.cond.Broadcast()
 }
 
+// SegAllButLast as a read size: the read returns everything available except the last byte.
+const SegAllButLast = -1
+
 func (t *Transport) availLocked() int {
 	n := 0
 	for _, a := range t.pending {
@@ -312,6 +315,12 @@ func (t *Transport) Read(n int) ([]byte, error) {
 	}
 	if seg > 0 && seg < limit {
 		limit = seg
+	}
+	if seg == SegAllButLast {
+		// everything that is available except its last byte (which then arrives alone)
+		if av := t.availLocked(); av > 1 && av-1 < limit {
+			limit = av - 1
+		}
 	}
 	if t.StallAfter >= 0 && t.StallAfter-t.Delivered < limit {
 		limit = t.StallAfter - t.Delivered
